@@ -389,12 +389,15 @@ func runE2E(bin string, r *rng.R, configs int, outDir string) ([]string, []any, 
 		emitOwn := func(out rawHeader) {
 			xo := rawHeader{}
 			for k, v := range filterProbe(out) {
-				if strings.ToLower(k) != "user-agent" {
-					xo[k] = v
+				// Go's Transport puts its own default User-Agent on a CONNECT it writes when no
+				// rule set one: that default is not a header-rule matter; any other value is kept
+				if strings.ToLower(k) == "user-agent" && len(v) == 1 && strings.HasPrefix(v[0], "Go-http-client/") {
+					continue
 				}
+				xo[k] = v
 			}
 			cases = append(cases, fmt.Sprintf("{| e_kind := ReqConnect; e_cfg := %s; e_in := %s; e_out := %s; e_probe := %s |}",
-				cfg, coqRaw(rawHeader{}), coqRaw(xo), coqfmt.StrList(e2eNames)))
+				cfg, coqRaw(rawHeader{}), coqRaw(xo), probeList()))
 			js = append(js, e2eCaseJSON{"ReqConnectOwn", req, con, resp, rawHeader{}, xo, "upstream proxy (CONNECT made by the proxy for an https request)"})
 		}
 		// three plain requests and two CONNECTs per configuration; the third plain request uses another method,
